@@ -97,6 +97,16 @@ theorem value_order_laws_false : ¬ ValueOrderLaws := by
 /-- False as well for a NaN real: none of `<`, `==`, `>` holds. -/
 theorem value_nan_not_consistent : (obsVal (.real none) (.real none)).consistent = false := by decide
 
+/-- The exact shape of the defect: when the right operand has more pointer layers than the left,
+    `a < b` only asks whether `a` (dereferenced) is `Undefined` — the right operand's target is never
+    looked at. -/
+theorem val_lt_pointer_right (a b : JVal) (h : depth a < depth b) :
+    Val.lt a b = (strip a == JVal.undefined) := val_lt_shallow_left a b h
+
+/-- Conversely, with at least as many layers on the left, `<` compares the pointed-to values. -/
+theorem val_lt_pointer_left (a b : JVal) (h : depth b ≤ depth a) :
+    Val.lt a b = Val.lt (strip a) (strip b) := val_lt_strip a b h
+
 /-- `<=` is `<` or `==`, `>=` is `>` or `==` — for every pair, pointers and NaN included. -/
 theorem val_le_iff (a b : JVal) : Val.le a b = (Val.lt a b || Val.eq a b) := val_le_eq a b
 theorem val_ge_iff (a b : JVal) : Val.ge a b = (Val.gt a b || Val.eq a b) := val_ge_eq a b
